@@ -192,7 +192,7 @@ def validate_registry_header(
                 raise ValueError(f'"{key}" in header {error}')
 
 
-def check_crit_header(header: Header) -> None:
+def check_crit_header(header: Header, registry: HeaderRegistryDict | None = None) -> None:
     # check crit header
     if "crit" in header:
         crit = header["crit"]
@@ -201,3 +201,7 @@ def check_crit_header(header: Header) -> None:
         for k in crit:
             if k not in header:
                 raise ValueError(f'"{k}" is a critical header')
+            # https://www.rfc-editor.org/rfc/rfc7515#section-4.1.11
+            # a critical header that is not understood makes the JWS invalid
+            if registry is not None and k not in registry:
+                raise ValueError(f'"{k}" is an unsupported critical header')
